@@ -156,7 +156,7 @@ PROPS = {
     "C15": {
         "extra_imports": ["Gofasta.Props.ColsSam", "Gofasta.Props.ColsVariants", "Gofasta.Props.Cli", "Gofasta.Lemmas.FastaWrite"],
         "extra_theorems": ["Gofasta.Props.Cols.checkArgs_translated", "Gofasta.Props.Cols.window_filter", "Gofasta.Props.Cols.agg_window_filter", "Gofasta.Props.Cli.window_defaults", "Gofasta.Props.Cli.wiring", "Gofasta.Props.Cli.no_option_twice", "Gofasta.Lemmas.FastaWrite.written_reads_back", "Gofasta.Lemmas.FastaWrite.file_bytes"],
-        "streams": {"C15v": (300, 5000), "C15toma": (300, 5000), "C15topa": (300, 5000)},
+        "streams": {"C15v": (300, 5000), "C15toma": (300, 5000), "C15topa": (300, 5000), "C15sv": (300, 5000)},
         "thorough_seeds": 3,
         "cli": True,
         "rule": "variants: windows (start alone, end alone, both) against model/spec, and file vs 'stdin' on the real code; toMultiAlign: every window against the "
